@@ -2654,6 +2654,10 @@ class CondTr(Generic[X, R], Trace[X, R]):
         return _where_leading(self.check, *map(get_retval, self.trs))
 
     def get_score(self) -> Score:
+        if jnp.ndim(self.check) > 0:
+            # Vectorized trace (a Cond directly under Vmap): the branch scores must be
+            # selected lane by lane before they are totalled.
+            return jnp.sum(modular_vmap(lambda tr: tr.get_score())(self))
         return jnp.where(self.check, *map(get_score, self.trs))
 
 
